@@ -165,4 +165,32 @@ class C05(IRProp):
         return bad
 
 
+    def oracle(self, tier, ctx, boosted):
+        import random
+
+        from harness import ctxlevel
+        from vlib import common as C
+        res = super().oracle(tier, ctx, boosted)
+
+        def check(ir, m):
+            probs = validate(ir, m)
+            if not probs:
+                try:
+                    roundtrip(ir)
+                except Exception as e:   # noqa
+                    probs.append(f"module does not serialize: {type(e).__name__}: {str(e)[:80]}")
+            return probs[0] if probs else None
+        rnd = C.rng("c05-ctx" + ("-boost" if boosted else ""))
+        n = {"quick": 300, "thorough": 3000}["thorough" if boosted else tier]
+        for k in range(2 * n):
+            sd = rnd.randrange(1 << 30)
+            # rewrites on x86-64, AArch64 and MIPS32 with alignment padding; tables that name single blocks (safe SEH, DT_INIT / DT_FINI, entry point)
+            w = ctxlevel.scoped_listing(random.Random(sd), validate=check) if k % 2 else ctxlevel.block_tables(random.Random(sd))
+            res["evaluations"] += 1
+            if w:
+                res["violations"].append(dict(what=w, input={("scoped_listing_seed" if k % 2 else "block_tables_seed"): sd}, finding=None))
+        res["violations"] = [b for b in res["violations"] if b["finding"] is None][:10] + [b for b in res["violations"] if b["finding"] is not None][:5]
+        return res
+
+
 PROP = C05()
